@@ -199,6 +199,71 @@ Fixpoint trace_of (c : cfg) (thr : N) (st : state) (h : history) : list state :=
 Definition trace_from (c : cfg) (thr : N) (d : list file) (h : history) : list state :=
   trace_of c thr (start_on c d) h.
 
+(** ---- peer addresses: the handler's dictionaries ----
+    peer_files and msg_sequence are dictionaries keyed by the peer address.  The key is the
+    LOWER-CASED text of the address: init() registers CONF.bgp.running_config['remote_addr'].lower()
+    (the directory <write_dir>/<key>/msg/ is named after it too), while every callback arrives with
+    the address as configured (factory.peer_addr; oslo.config's IPOpt keeps the spelling, so an IPv6
+    address may contain upper-case hex digits) and write_msg / check_file_size look up
+    peer.lower() -- for reading AND for storing the file a rotation opens.  The model makes the
+    normalisation explicit: an event carries the address as spelled, every access goes through
+    [lower].  A callback for a key that is not registered does nothing (msg_path is None).
+    One process serves one configured peer; init_msg_file can register more, which is modelled
+    too ([hstart] with several addresses).  A restart or a crash ends the process, i.e. every
+    registered log is re-initialised. *)
+Definition lower_octet (x : N) : N := if (65 <=? x) && (x <=? 90) then x + 32 else x.
+Definition lower (a : bytes) : bytes := map lower_octet a.
+
+Definition handler := list (bytes * state).
+
+Fixpoint hget (k : bytes) (h : handler) : option state :=
+  match h with
+  | [] => None
+  | (k', s) :: r => if bytes_eqb k k' then Some s else hget k r
+  end.
+
+Fixpoint hupd (k : bytes) (f : state -> state) (h : handler) : handler :=
+  match h with
+  | [] => []
+  | (k', s) :: r => if bytes_eqb k k' then (k', f s) :: r else (k', s) :: hupd k f r
+  end.
+
+Definition hall (f : state -> state) (h : handler) : handler := map (fun ks => (fst ks, f (snd ks))) h.
+
+Inductive hevent :=
+| HEv (a : bytes) (cb : callback) (ok : bool) (sz : N)
+| HRestart
+| HCrash (a : bytes) (cb : callback) (ok : bool) (sz : N) (k : N).
+
+Definition hstep (c : cfg) (thr : N) (h : handler) (e : hevent) : handler :=
+  match e with
+  | HEv a cb ok sz => hupd (lower a) (callback_step c thr cb ok sz) h
+  | HRestart => hall (fun s => init c (kill s)) h
+  | HCrash a cb ok sz k =>
+      hall (fun s => init c (kill s)) (hupd (lower a) (crash_write c cb ok sz k) h)
+  end.
+
+(** init_msg_file(a.lower()) for every address, on empty directories; a key that is registered
+    already is left alone (`peer_addr not in self.peer_files`) *)
+Definition hregister (c : cfg) (h : handler) (a : bytes) : handler :=
+  match hget (lower a) h with Some _ => h | None => h ++ [(lower a, start_on c [])] end.
+Definition hstart (c : cfg) (peers : list bytes) : handler := fold_left (hregister c) peers [].
+Definition hrun (c : cfg) (thr : N) (peers : list bytes) (es : list hevent) : handler :=
+  fold_left (hstep c thr) es (hstart c peers).
+
+(** what one peer's log sees of a handler history *)
+Definition proj (k : bytes) (e : hevent) : history :=
+  match e with
+  | HEv a cb ok sz => if bytes_eqb (lower a) k then [Ev cb ok sz] else []
+  | HRestart => [Restart]
+  | HCrash a cb ok sz j => if bytes_eqb (lower a) k then [Crash cb ok sz j] else [Restart]
+  end.
+
+Fixpoint htrace_of (c : cfg) (thr : N) (h : handler) (es : list hevent) : list handler :=
+  h :: match es with [] => [] | e :: r => htrace_of c thr (hstep c thr h e) r end.
+Definition htrace (c : cfg) (thr : N) (peers : list bytes) (es : list hevent) : list handler :=
+  htrace_of c thr (hstart c peers) es.
+
 (** ---- the octet level of get_last_seq_and_file ----
     The abstract functions above take "the last line of a file" as the head of a list.  What the
     code does to get it is spelled out here on octets, so that it is explicit that NO length
@@ -259,6 +324,9 @@ Definition sx_file (f : file) : sx :=
 Definition sx_state (st : state) : sx :=
   SL [SL (map sx_file (rev (disk st))); sx_opt SN (alive st); SN (exits st); SN (nrep st)].
 Definition sx_trace (skip : nat) (t : list state) : sx := SL (map sx_state (skipn skip t)).
+(** all registered logs, in registration order, after the start and after every event *)
+Definition sx_handler (h : handler) : sx := SL (map (fun ks => sx_state (snd ks)) h).
+Definition sx_htrace (t : list handler) : sx := SL (map sx_handler t).
 (** what start-up parsed: which reader was called (1 json.loads, 2 eval, 0 none), and the text it
     was given, as (octet count, first 24 octets, last 4 octets) *)
 Definition rep (x n : N) : bytes := repeat x (N.to_nat n).
